@@ -85,7 +85,7 @@ func verifies(u UserCfg, pw []byte) (known bool, ok bool) {
 	if a.Type != 1 {
 		return true, false // no such authenticator type registered: default deny
 	}
-	if a.Password == "" {
+	if a.Password == "" || (a.KeychainErr && a.Options["hash"] == "") {
 		return true, false
 	}
 	return true, string(pw) == a.Password
